@@ -135,6 +135,67 @@ def run_globals(p):
         Globals.dict.update(saved)
 
 
+class Rec(iso.OutputDevice):
+    def __init__(self):
+        super().__init__()
+        self.calls = []
+
+    @property
+    def ticks_per_beat(self):
+        return None
+
+    def note_on(self, note=60, velocity=64, channel=0):
+        self.calls.append(["on", note, velocity, channel])
+
+    def note_off(self, note=60, channel=0):
+        self.calls.append(["off", note, channel])
+
+
+def run_notation(p):
+    """tracks whose event values are written in string shorthand: program = {"kind": "notation", "tpb", "gate": [num, den],
+    "tracks": [{"note": str, "dur": str, "amp": str, "chan": c, "delay": [num, den] beats | null, "count": n | null,
+                "form": "dict" | "pdict" | "pseq"}],
+    "rounds": [[["schedule", track index] | ["tick", n], ...], ...]}: every round is played on a NEW Timeline of the same process;
+    every schedule call builds its event dictionary anew from the strings.
+    result: {"rounds": [sparse observation as in sched_impl.py: [op index, calls, result, ids of Timeline.tracks]]}"""
+    out = []
+    gate = float(Fraction(*p["gate"]))
+    for ops in p["rounds"]:
+        dev = Rec()
+        tl = iso.Timeline(120, output_device=dev, clock_source=iso.DummyClock(ticks_per_beat=p["tpb"]))
+        created = []
+        sparse, prev, idx = [], [], 0
+        for o in ops:
+            for _ in range(o[1] if o[0] == "tick" else 1):
+                dev.calls = []
+                res = "ok"
+                if o[0] == "tick":
+                    try:
+                        tl.tick()
+                    except StopIteration:
+                        res = "stop"
+                    except Exception:
+                        res = "exc"
+                else:
+                    t = p["tracks"][o[1]]
+                    d = {"note": t["note"], "duration": t["dur"], "amplitude": t["amp"], "gate": gate, "channel": t["chan"]}
+                    if t["form"] == "pseq":
+                        d = {k: (iso.PSequence(v) if isinstance(v, str) else v) for k, v in d.items()}
+                    elif t["form"] == "pdict":
+                        d = iso.PDict(d)
+                    kw = {}
+                    if t.get("delay") is not None:
+                        kw["delay"] = float(Fraction(*t["delay"]))
+                    created.append(tl.schedule(d, count=t.get("count"), **kw))
+                ids = [next((i for i, c in enumerate(created) if c is tr), -1) for tr in tl.tracks]
+                if dev.calls or res != "ok" or ids != prev:
+                    sparse.append([idx, dev.calls, res, ids])
+                prev = ids
+                idx += 1
+        out.append(sparse)
+    return {"rounds": out}
+
+
 def main():
     req = json.load(sys.stdin)
     out = []
@@ -143,7 +204,7 @@ def main():
         try:
             buf = io.StringIO()
             with contextlib.redirect_stdout(buf), contextlib.redirect_stderr(buf):
-                out.append(run_globals(p) if p.get("kind") == "globals" else run(p))
+                out.append(run_globals(p) if p.get("kind") == "globals" else run_notation(p) if p.get("kind") == "notation" else run(p))
         except Exception as e:
             import traceback
             out.append({"driver_error": "%s: %s" % (type(e).__name__, e), "tb": traceback.format_exc()[-1500:]})
